@@ -9,15 +9,20 @@
  *                     min' <= value <= max' (max' not wrapping), mantissa/exp/ring layout = what signing used.
  *                     Compiled once per resulting exponent (EXPCASE = 0..18; a case split on an output, the
  *                     exact-value header belongs to EXPCASE 0) because the solver cannot do it in one piece.
- * Oracles (assumed): genrand (seed capture), pedersen_ecmult, ge_set_gej_var, fe_is_square_var,
- * borromean_sign; pub_expand by its call-site contract; sha256 by the stream contracts; memcpy by contract. */
-#define RP_ISSQUARE
-#define RP_PED
+ * Oracles (assumed; DFCC contract: genrand with seed capture; call-site stubs: pedersen_ecmult, ge_set_gej_var,
+ * fe_is_square_var, borromean_sign); pub_expand by its DFCC call-site contract; sha256 by the stream stubs;
+ * scalar_get_b32 and memcpy by stubs whose frame is the whole destination object (bounds = obligation).
+ * Because of that over-approximated frame the header bytes are judged as captured when the random stream
+ * is seeded (all header bytes are written before that point). */
+#define RP_STUB_ISSQUARE
+#define RP_STUB_PED
+#define RP_STUB_BORRO_SIGN
+#define RP_STUB_SET_GEJ
+#define RP_STUB_SHA
+#define RP_STUB_GET_B32
+#define RP_STUB_MEMCPY
 #define RP_PUB_EXPAND
-#define RP_BORRO_SIGN
 #define RP_GENRAND
-#define RP_MEMCPY
-#include "hash_log.h"
 #include "assumed_rangeproof.h"
 #include "src/secp256k1.c"
 #include "post.h"
@@ -33,7 +38,7 @@ static int b32_lt(const unsigned char *b, const unsigned char *c) {
 #define MAXE 100000
 
 static void sg_reset(size_t gk, size_t gb) {
-    g_sq_n = 0; g_sq_hit = 0; g_sq_watch = 0; g_pd_n = 0; g_pd_hit = 0; g_pd_watch = (int)gk; g_pe_n = 0; g_bs_n = 0; g_gr_n = 0;
+    g_sq_n = 0; g_sq_hit = 0; g_sq_watch = 0; g_pd_n = 0; g_pd_hit = 0; g_pd_watch = (int)gk; g_pe_n = 0; g_bs_n = 0; g_gr_n = 0; g_gb_n = 0; g_sg_n = 0; g_sg_hit = 0; g_sg_watch = -1;
     g_rp_k = gk; g_rp_b = gb; HASHLOG_RESET(); g_we = 0; g_wpos = 0;
 }
 /* ring layout the VERIFIER derives from a header mantissa (rangeproof_impl.h verify_impl / proof format) */
@@ -67,7 +72,6 @@ void h_sign_gates(void) {
         __CPROVER_assert(g_gr_nonce == nonce && g_gr_commit == &commit && g_gr_genp == &genp && g_gr_proof == proof && g_gr_msg != NULL,
             "C09 sign gates: random stream seeded with the caller's nonce, commitment, generator and the proof header");
         __CPROVER_assert(g_gr_len >= 1 && g_gr_len <= 10 && g_gr_len <= plen_in, "C09 sign gates: header length between 1 and 10 bytes, inside the buffer");
-        if (gb < g_gr_len) __CPROVER_assert(proof[gb] == g_gr_proof_b, "C09 sign gates: header bytes are not modified after seeding");
         __CPROVER_assert(!use_msg || msg_len == 0 || msg_len <= 128 * (g_gr_rings - 1), "C09 sign gates: a message longer than 128*(rings-1) is refused");
         rings_s = g_gr_rings;
     }
@@ -97,28 +101,30 @@ void h_sign_gates(void) {
 #endif
 void h_sign_header(void) {
     INPUT(size_t, plen_in); INPUT(uint64_t, min_value); INPUT(uint64_t, value); INPUT(int, exp); INPUT(int, min_bits);
-    INPUT_ARR(unsigned char, blind, 32); INPUT_ARR(unsigned char, nonce, 32); INPUT(secp256k1_ge, commit); INPUT(secp256k1_ge, genp);
+    INPUT_ARR(unsigned char, hblind, 32); INPUT_ARR(unsigned char, hnonce, 32); INPUT(secp256k1_ge, commit); INPUT(secp256k1_ge, genp);
     INPUT(size_t, gk); INPUT(size_t, plen2);
-    unsigned char *proof; size_t plen, off = 0; secp256k1_context ctx; int ret, hret, hexp, hman; uint64_t hscale, hmin, hmax;
+    unsigned char *proof, hb[16]; size_t plen, off = 0, j; secp256k1_context ctx; int ret, hret, hexp, hman; uint64_t hscale, hmin, hmax;
     __CPROVER_assume(plen_in <= MAXP && gk < 32 && plen2 <= MAXP);
     __CPROVER_assume(ge_ok(&commit) && !commit.infinity && ge_ok(&genp) && !genp.infinity);
     INPUT_BUF(pf, proof, plen_in, 16);
     verif_ctx_init(&ctx); ctx.hash_ctx.fn_sha256_compression = secp256k1_sha256_transform;
     sg_reset(gk, 0);
     plen = plen_in;
-    ret = secp256k1_rangeproof_sign_impl(&ctx.hash_ctx, &ctx.ecmult_gen_ctx, proof, &plen, min_value, &commit, blind, nonce, exp, min_bits, value, NULL, 0, NULL, 0, &genp);
+    ret = secp256k1_rangeproof_sign_impl(&ctx.hash_ctx, &ctx.ecmult_gen_ctx, proof, &plen, min_value, &commit, hblind, hnonce, exp, min_bits, value, NULL, 0, NULL, 0, &genp);
     if (g_gr_n == 1) {
-        /* the header is complete when the random stream is seeded.  CASE SPLIT on the exponent field written (not an input restriction) */
-        __CPROVER_assume(((proof[0] & 64) ? (proof[0] & 31) : 0) == EXPCASE);
-        /* decode with the real header parser, for every proof length the finished proof can have */
+        /* the header is complete when the random stream is seeded: g_gr_hdr[0..g_gr_len) are the bytes proof[0..g_gr_len) at that moment */
+        for (j = 0; j < 16; j++) hb[j] = (j < 10 && j < g_gr_len) ? g_gr_hdr[j] : 0;
+        /* CASE SPLIT on the exponent field written (not an input restriction); EXPCASE 0 also carries the exact-value header */
+        __CPROVER_assume(((hb[0] & 64) ? (hb[0] & 31) : 0) == EXPCASE);
+        /* decode with the real header parser, for every total length the finished proof can have */
         __CPROVER_assume(plen2 >= 65 && plen2 >= g_gr_len && plen2 <= plen_in);
-        hret = secp256k1_rangeproof_getheader_impl(&off, &hexp, &hman, &hscale, &hmin, &hmax, proof, plen2);
+        hret = secp256k1_rangeproof_getheader_impl(&off, &hexp, &hman, &hscale, &hmin, &hmax, hb, plen2);
         __CPROVER_assert(hret == 1, "C09 sign header: the header written by sign_impl is accepted by getheader_impl (range does not wrap 2^64)");
         __CPROVER_assert(off == g_gr_len, "C09 sign header: header length decoded = header length written = seed length");
         __CPROVER_assert(hmin <= value && value <= hmax, "C09 sign header: min' <= value <= max'");
         __CPROVER_assert(hmin >= min_value, "C09 sign header: the public minimum is never below the requested minimum");
         __CPROVER_assert(hman >= 0 && hman <= 64 && (hman == 0) == (hexp == -1), "C09 sign header: mantissa in [0,64], zero exactly for an exact-value proof");
-        __CPROVER_assert(g_gr_rings == v_rings(hman) && g_gr_rs_k == (gk < g_gr_rings ? v_rsize(hman, gk) : g_gr_rs_k), "C09 sign header: the ring layout used for signing is the one the verifier derives from the header");
+        __CPROVER_assert(g_gr_rings == v_rings(hman) && (gk >= g_gr_rings || g_gr_rs_k == v_rsize(hman, gk)), "C09 sign header: the ring layout used for signing is the one the verifier derives from the header");
         if (hman == 0) __CPROVER_assert(hmin == value && hmax == value, "C09 sign header: exact-value proof reports [value, value]");
         else __CPROVER_assert(hexp >= 0 && hexp <= exp, "C09 sign header: exponent never raised");
         if (ret == 1) {
